@@ -166,3 +166,18 @@ def complete_case(draw, Lmax=5, dense_cap=128, models=MODELS):
 def sector_mask(qd, L, total):
     q = basis_charges(np.asarray(qd, dtype=np.int64), L)
     return q == total
+
+
+def gauge_edit(psi, seed):
+    """User-style gauge change that leaves the state unchanged: a positive diagonal matrix g on one interior bond,
+    A[b-1] <- A[b-1] g, A[b] <- g^-1 A[b] (diagonal, so the block sparsity is kept; entries 2^k, k in -2..2, so the edit is exact
+    in floating point). Afterwards the tensors next to the bond are no longer isometries. Returns False if there is no interior bond."""
+    L = len(psi.A)
+    if L < 2:
+        return False
+    rng = np.random.default_rng(seed)
+    b = 1 + int(rng.integers(0, L - 1))
+    g = 2.0 ** rng.integers(-2, 3, size=psi.A[b].shape[1])
+    psi.A[b - 1] = psi.A[b - 1] * g[None, None, :]
+    psi.A[b] = psi.A[b] / g[None, :, None]
+    return True
